@@ -98,4 +98,52 @@ def ops_spec(ops):
                             tgt["parameters"].append(p)
                 else:
                     tgt[k] = v
+# ---- C17: one struct `T` with the member under test (`mem`) and an optional sibling (`z`) ----
+def dflt_member_schema(m):
+    """m: {kind:{scalar:{ty,format?}}|{enum:[..]}|{object:[..]}, ref?, array?, nullable?, default?, const?, enum1?}"""
+    k = m["kind"]
+    if "scalar" in k:
+        sch = {"type": k["scalar"]["ty"]}
+        if k["scalar"].get("format"):
+            sch["format"] = k["scalar"]["format"]
+    elif "enum" in k:
+        sch = {"allOf": [{"$ref": "#/components/schemas/Color"}]} if m.get("ref") else {"type": "string", "enum": list(k["enum"])}
+    elif "object" in k:
+        sch = {"type": "object", "properties": {key: {"type": "string"} for key in k["object"]}}
+    else:
+        raise ValueError("kind")
+    if m.get("array"):
+        sch = {"type": "array", "items": sch}
+    if m.get("nullable"):
+        if not isinstance(sch.get("type"), str):
+            raise ValueError("nullable needs a plain type")
+        sch["type"] = [sch["type"], "null"]
+    for key in ("default", "const"):
+        if key in m:
+            sch[key] = m[key]
+    if "enum1" in m:
+        sch["enum"] = [m["enum1"]]
+    return sch
+
+
+def dflt_custom_name(m):
+    k = m["kind"]
+    if "enum" in k:
+        return "Color" if m.get("ref") else "TMem"
+    if "object" in k:
+        return "TMem"
+    return ""
+
+
+def dflt_spec(m):
+    s = {"openapi": "3.1.0", "info": {"title": "t", "version": "1"}, "paths": {}, "components": {"schemas": {}}}
+    t = {"type": "object", "properties": {"mem": dflt_member_schema(m), "z": {"type": "string"}}}
+    if m.get("required"):
+        t["required"] = ["mem"]
+    s["components"]["schemas"]["T"] = t
+    if "enum" in m["kind"] and m.get("ref"):
+        s["components"]["schemas"]["Color"] = {"type": "string", "enum": list(m["kind"]["enum"])}
+    ref = {"$ref": "#/components/schemas/T"}
+    s["paths"]["/t"] = {"post": {"operationId": "putT", "requestBody": {"required": True, "content": {"application/json": {"schema": ref}}},
+                                 "responses": {"200": {"description": "ok", "content": {"application/json": {"schema": ref}}}}}}
     return s
